@@ -127,7 +127,7 @@ pub fn lines_strategy() -> impl Strategy<Value = InputCase> {
             "@\u{a0}{}", "#\u{2009}{}", "@salt|\u{3000}{}", "~\u{a0}{}", ">>\u{a0}: v", "@\u{a0}salt\u{a0}{1%kg}", "to \u{2212}5 degrees", "a\0b", "x \0 y", "\0",
             "@a{} @&a{}(-- é\nx)", "@a{}(-- é\nx) @&a{}(y)", "#b{}([- ü -]x)\n#&b{}([-é-]y)", "@a{1%kg}(-- 😀\n) @&a(-- é\n z)", "~t{5%min}(-- é\nx)",
             "@@éa {1}", "@@green  pesto {}", "@@./dir/é name{}", "@@pesto{} @@tomato sauce  {2%kg}", "@@bechamel{}\n>> ab: 1\n>> abc: 2\n>> abcd: 3", "@&./sauces/tomato{}", "@+&../basics/pesto{}", "@./a/b{} @&./a/b{}", "@./my [- c -] sauces/tomato [- d -] sauce{1%kg}",
-            "\u{feff}>> title: Soup", "\u{feff}---\ntitle: x\n---\n@a{}", "\u{feff}>> [mode]: steps", "@sea salt{ [- to taste -] }", "#pan{[- 1 -]}", "~rest{ [-é-] }", "-18 °C now", "#freezer{}-18 °C", "---\nservings: []\n---\n@a{1%kg}",
+            "\u{feff}---\ntitle: Café\n---\nAñade @sal{1%g} y más ñ\n", "\u{feff}\n---\nk: é\n---\nñandú @ñame{} é", "\u{feff}>> title: Soup", "\u{feff}---\ntitle: x\n---\n@a{}", "\u{feff}>> [mode]: steps", "@sea salt{ [- to taste -] }", "#pan{[- 1 -]}", "~rest{ [-é-] }", "-18 °C now", "#freezer{}-18 °C", "---\nservings: []\n---\n@a{1%kg}",
             "---\ntime: {prep: 10, cook: until golden}\n---", "---\ntime:\n  prep: 10 min\n  cook: 4294967296\n---", ">> [mode: steps\n@a{} @b{}", ">> [duplicate: ref",
             ">> serves: 4", ">> yield: 6|12", "@x{.05%g}", "@x{.05-.1%g}", "@x{.5 g}", "[---]", "[- x --] y", "[- a - b -]",
         ]).prop_map(|s| s.to_string()),
